@@ -155,6 +155,8 @@ def compare_msg(s):
     import re
     s = re.sub(r"\d+", "N", s)
     s = re.sub(r"'[^']*'", "'S'", s)
+    s = re.sub(r"\[#N(?:, #N)*\]", "[#N..]", s)
+    s = re.sub(r"\[TableRef \{ table_idx: N \}(?:, TableRef \{ table_idx: N \})*\]", "[TableRef..]", s)
     return s[:100]
 
 
